@@ -207,6 +207,15 @@ func waitUntil(limit time.Duration, f func() bool) bool {
 }
 
 func run(c *fw.Ctx, idx int) {
+	// the first cases are the trickle family (age limit under a steady stream)
+	ntr := 8
+	if c.Thorough() {
+		ntr = 32
+	}
+	if idx < ntr {
+		trickleCase(c, idx)
+		return
+	}
 	if idx%4 == 3 {
 		multiReplica(c, idx)
 		return
